@@ -33,6 +33,21 @@ CHECKS = {
     category='exploration', design='4/C05',
     text="pp/ip/ea (dip/dea at low order) blocks through ADC(2), 1-particle operators (2-particle thorough), default operator strings per variant, subtract_gs on/off, ADC(n) sums against the block-order definition.",
     note="Trusted: vlib/isr.py apply_operator, the reading of the documented normalisation (validated on all blocks)."),
+ 'C07': dict(
+    technique="runtime monitor: value oracle (F_p tensor model) + alpha-equivalence completeness oracle on direct simplify calls; icontract post-condition on adcgen.simplify.simplify for the internal calls of real derivations",
+    category='exploration', design='4/C07',
+    text="~860 generated sums per quick run (alpha-renamed copies built on the IR by injective renaming + declared-symmetry slot permutations), real/complex assumptions, explicit/Einstein targets, spin labels; value on every target assignment, term count, assumptions, and merging of c*T + c'*rho(T) into <= 1 term; every internal simplify call of 4-6 derivation pipelines.",
+    note="Trusted: TM evaluator and its Einstein rule; generator covers tensors up to rank (2,2)/(3,0), <= 5 objects per term."),
+ 'C09': dict(
+    technique="runtime monitor: value oracle (F_p tensor model incl. spin-structured domains, operators replaced by positional stand-ins) + information-rule checker over the delta-connected components, on direct calls and as post-condition hook on every internal evaluate_deltas call (recursion-aware monitor.ensure)",
+    category='exploration', design='4/C09',
+    text="~850 generated terms per quick run with 1-4 deltas (chains/stars over occ/virt/general/spin-labelled indices, operators), explicit or Einstein targets, precondition of the property checked first; ~1500 internal calls of five derivation pipelines.",
+    note="Trusted: TM evaluator; object-count target rule re-implemented as documented."),
+ 'C20': dict(
+    technique="runtime monitor: value oracle with U a Cayley-orthogonal block matrix over F_p on every generated simplify_unitary call",
+    category='exploration', design='4/C20',
+    text="600 generated products per quick run (2-6 U incl. powers, structured pairs sharing an index that is contracted-only / also on a third object / a target, denominators, 1-2 terms, explicit or Einstein targets fixed by the input, evaluate_deltas on/off).",
+    note="Trusted: Cayley transform + modular inverse (orthogonality asserted at run time), TM evaluator. Which indices are targets is fixed by the input (explicitly or by the summation convention on the input term)."),
 }
 
 NOT_YET = {}
